@@ -810,6 +810,163 @@ fn case_json_recs(ctx: &mut Ctx, idx: usize, rng: &mut Rng, sel: usize) {
     ctx.out.sample(&case);
 }
 
+// ------------------------------------------------------------------------------------------------
+// section F: re-use of one FileImage object (pack A, then pack B into the same object)
+// ------------------------------------------------------------------------------------------------
+
+fn rel_len(rng: &mut Rng, la: usize, rel: usize, chunk: usize) -> usize {
+    match rel { 0 => 0, 1 => rng.below(la.max(1)), 2 => la + rng.range(1, 2 * chunk), _ => la }
+}
+
+fn case_reuse(ctx: &mut Ctx, idx: usize, rng: &mut Rng, var: &Variant, fs: Fs, sel: usize) {
+    let chunk = [256usize, 512, 128, 7][(sel / 20) % 4];
+    let kind = ["bin", "raw", "txt", "tok", "rec"][sel % 5];
+    let rel = (sel / 5) % 4;
+    let rel_s = ["empty", "shorter", "longer", "same-length"][rel];
+    let supported = match kind { "tok" | "rec" => matches!(fs, Fs::Dos | Fs::Prodos), _ => true };
+    if !supported { return; }
+    let mut f = new_fimg(fs, chunk);       // the re-used object
+    let mut fresh = new_fimg(fs, chunk);   // reference: B packed into a new image
+    let init = init_spec(&f);
+    let head = format!("c13 reuse {} {} {} {} {}", fs.name(), var.spec(), chunk, init, kind);
+    let sig = format!("{}/pack_{}/stale-state-after-repack", fs.module(), kind);
+    // (request tail, A ok?, outcome of B on the re-used object, outcome of B on the fresh object, rendered answer, unpack equals B?)
+    let (tail, a_ok, ans, same_as_fresh, un_is_b): (String, bool, String, bool, bool) = match kind {
+        "bin" => {
+            let la = rng.range(1, 3 * chunk);
+            let a = Data::gen(rng, la);
+            let b = { let l = rel_len(rng, la, rel, chunk); Data::gen(rng, l) };
+            let (aa, ab) = (rng.below(0x10000), rng.below(0x10000));
+            let a_ok = matches!(guarded(|| f.pack_bin(&a.bytes, Some(aa), None)), Ok(Ok(())));
+            let r1 = guarded(|| f.pack_bin(&b.bytes, Some(ab), None));
+            let r2 = guarded(|| fresh.pack_bin(&b.bytes, Some(ab), None));
+            let (ans, same, isb) = match (&r1, &r2) {
+                (Ok(Ok(())), Ok(Ok(()))) => {
+                    let la = guarded(|| f.get_load_address());
+                    let (un_s, un, _) = res_bytes(guarded(|| f.unpack_bin()));
+                    let (_, un2, _) = res_bytes(guarded(|| fresh.unpack_bin()));
+                    (format!("ok {} la={} un={}", img_digest(&f), match &la { Ok(v) => v.to_string(), Err(_) => "panic".to_string() }, un_s),
+                     img_digest(&f) == img_digest(&fresh) && f.to_json(None) == fresh.to_json(None) && un == un2, un.as_ref() == Some(&b.bytes))
+                }
+                (Ok(Err(_)), Ok(Err(_))) => ("err".to_string(), true, true),
+                (Err(_), _) => ("panic".to_string(), false, false),
+                _ => ("mixed".to_string(), false, false),
+            };
+            (format!("{} {} {} {}", a.spec, aa, b.spec, ab), a_ok, ans, same, isb)
+        }
+        "raw" => {
+            let la = rng.range(1, 3 * chunk);
+            let a = Data::gen(rng, la);
+            let b = { let l = rel_len(rng, la, rel, chunk); Data::gen(rng, l) };
+            let a_ok = matches!(guarded(|| f.pack_raw(&a.bytes)), Ok(Ok(())));
+            let r1 = guarded(|| f.pack_raw(&b.bytes));
+            let r2 = guarded(|| fresh.pack_raw(&b.bytes));
+            let (ans, same, isb) = match (&r1, &r2) {
+                (Ok(Ok(())), Ok(Ok(()))) => {
+                    let (un_s, un, _) = res_bytes(guarded(|| f.unpack_raw(false)));
+                    let (_, un2, _) = res_bytes(guarded(|| fresh.unpack_raw(false)));
+                    let (_, unt, _) = res_bytes(guarded(|| f.unpack_raw(true)));
+                    (format!("ok {} un={} seq={}", img_digest(&f), un_s, digest(&f.sequence())),
+                     img_digest(&f) == img_digest(&fresh) && f.to_json(None) == fresh.to_json(None) && un == un2 && f.end() == fresh.end(),
+                     un.as_ref() == Some(&b.bytes) && unt.as_ref() == Some(&b.bytes))
+                }
+                (Ok(Err(_)), Ok(Err(_))) => ("err".to_string(), true, true),
+                (Err(_), _) => ("panic".to_string(), false, false),
+                _ => ("mixed".to_string(), false, false),
+            };
+            (format!("{} {}", a.spec, b.spec), a_ok, ans, same, isb)
+        }
+        "txt" => {
+            let sh = rng.below(5); let (ta, _, _) = gen_text(rng, sh);
+            let ta: String = ta.chars().take(1500).collect::<String>();
+            let ta = if ta.ends_with('\n') { ta } else { format!("{}\n", ta) };
+            let tb = match rel { 0 => String::new(), 1 => { let l = rng.range(1, ta.len().max(2) - 1); record_text(rng, l) }, 2 => { let l = ta.len() + rng.range(1, 600); record_text(rng, l) }, _ => record_text(rng, ta.len()) };
+            let a_ok = matches!(guarded(|| f.pack_txt(&ta)), Ok(Ok(())));
+            let r1 = guarded(|| f.pack_txt(&tb));
+            let r2 = guarded(|| fresh.pack_txt(&tb));
+            let (ans, same, isb) = match (&r1, &r2) {
+                (Ok(Ok(())), Ok(Ok(()))) => {
+                    let un = guarded(|| f.unpack_txt());
+                    let un2 = guarded(|| fresh.unpack_txt());
+                    let s1 = match &un { Ok(Ok(s)) => Some(s.clone()), _ => None };
+                    let s2 = match &un2 { Ok(Ok(s)) => Some(s.clone()), _ => None };
+                    let un_s = match &un { Err(_) => "panic".to_string(), Ok(Err(_)) => "err".to_string(), Ok(Ok(s)) => format!("ok:{}", digest(s.as_bytes())) };
+                    (format!("ok {} un={}", img_digest(&f), un_s),
+                     img_digest(&f) == img_digest(&fresh) && f.to_json(None) == fresh.to_json(None) && s1 == s2,
+                     tb.is_empty() || s1.as_deref() == Some(tb.as_str()))
+                }
+                (Ok(Err(_)), Ok(Err(_))) => ("err".to_string(), true, true),
+                (Err(_), _) => ("panic".to_string(), false, false),
+                _ => ("mixed".to_string(), false, false),
+            };
+            (format!("{} {}", hx(ta.as_bytes()), hx(tb.as_bytes())), a_ok, ans, same, isb)
+        }
+        "tok" => {
+            let (lang, lang_s) = if sel % 2 == 0 { (ItemType::ApplesoftTokens, "a") } else { (ItemType::IntegerTokens, "i") };
+            let na = rng.range(2, 12);
+            let a = gen_tokens(rng, 0x801, na);
+            let b = match rel { 0 => vec![], 1 => { let n = rng.range(1, na - 1); gen_tokens(rng, 0x801, n) }, 2 => { let n = na + rng.range(1, 20); gen_tokens(rng, 0x801, n) }, _ => { let mut t = gen_tokens(rng, 0x801, na + 4); t.truncate(a.len()); while t.len() < a.len() { t.push(0); } t } };
+            let a_ok = matches!(guarded(|| f.pack_tok(&a, lang, None)), Ok(Ok(())));
+            let r1 = guarded(|| f.pack_tok(&b, lang, None));
+            let r2 = guarded(|| fresh.pack_tok(&b, lang, None));
+            let (ans, same, isb) = match (&r1, &r2) {
+                (Ok(Ok(())), Ok(Ok(()))) => {
+                    let (un_s, un, _) = res_bytes(guarded(|| f.unpack_tok()));
+                    let (_, un2, _) = res_bytes(guarded(|| fresh.unpack_tok()));
+                    (format!("ok {} un={}", img_digest(&f), un_s),
+                     img_digest(&f) == img_digest(&fresh) && f.to_json(None) == fresh.to_json(None) && un == un2, un.as_ref() == Some(&b))
+                }
+                (Ok(Err(_)), Ok(Err(_))) => ("err".to_string(), true, true),
+                (Err(_), _) => ("panic".to_string(), false, false),
+                _ => ("mixed".to_string(), false, false),
+            };
+            (format!("{} {} {}", lang_s, hx(&a), hx(&b)), a_ok, ans, same, isb)
+        }
+        _ => {
+            let (la, lb) = ([64usize, 128, 300][rng.below(3)], [64usize, 128, 300][rng.below(3)]);
+            let mk = |rng: &mut Rng, l: usize, n: usize| -> (a2kit::fs::Records, Vec<(usize, String)>) {
+                let mut r = a2kit::fs::Records::new(l);
+                let mut v: Vec<(usize, String)> = Vec::new();
+                for _ in 0..n { let k = rng.below(12); if v.iter().any(|(x, _)| *x == k) { continue; } let tl = rng.range(1, l.min(40)); let t = record_text(rng, tl); r.add_record(k, &t); v.push((k, t)); }
+                v.sort();
+                (r, v)
+            };
+            let na = rng.range(2, 5);
+            let (ra, va) = mk(rng, la, na);
+            let nb = match rel { 0 => 0, 1 => 1, 2 => na + 3, _ => na };
+            let (rb, vb) = mk(rng, lb, nb);
+            let a_ok = matches!(guarded(|| f.pack_rec(&ra)), Ok(Ok(())));
+            let r1 = guarded(|| f.pack_rec(&rb));
+            let r2 = guarded(|| fresh.pack_rec(&rb));
+            let (ans, same, isb) = match (&r1, &r2) {
+                (Ok(Ok(())), Ok(Ok(()))) => {
+                    let un = guarded(|| f.unpack_rec(Some(lb)));
+                    let un2 = guarded(|| fresh.unpack_rec(Some(lb)));
+                    let m1 = match &un { Ok(Ok(r)) => Some(render_recs(&r.map)), _ => None };
+                    let m2 = match &un2 { Ok(Ok(r)) => Some(render_recs(&r.map)), _ => None };
+                    let un_s = match &un { Err(_) => "panic".to_string(), Ok(Err(_)) => "err".to_string(), Ok(Ok(r)) => format!("ok:{}", render_recs(&r.map)) };
+                    let all = match &un { Ok(Ok(r)) => vb.iter().all(|(k, t)| r.map.get(k) == Some(t)), _ => false };
+                    (format!("ok {} un={}", img_digest(&f), un_s),
+                     img_digest(&f) == img_digest(&fresh) && f.to_json(None) == fresh.to_json(None) && m1 == m2, all)
+                }
+                (Ok(Err(_)), Ok(Err(_))) => ("err".to_string(), true, true),
+                (Err(_), _) => ("panic".to_string(), false, false),
+                _ => ("mixed".to_string(), false, false),
+            };
+            let sp = |v: &Vec<(usize, String)>| if v.is_empty() { "-".to_string() } else { v.iter().map(|(k, t)| format!("{}:{}", k, hx(t.as_bytes()))).collect::<Vec<String>>().join(",") };
+            (format!("{} {} {} {} {}", rec_variant(), la, sp(&va), lb, sp(&vb)), a_ok, ans, same, isb)
+        }
+    };
+    let case = format!("idx={} reuse kind={} fs={} chunk={} B={} args={}", idx, kind, fs.name(), chunk, rel_s, tail.chars().take(120).collect::<String>());
+    ctx.out.count(&format!("reuse:{}:{}", kind, rel_s));
+    if !a_ok { ctx.out.count("reuse:first-pack-refused"); return; }
+    ctx.out.oracle(same_as_fresh, "pack B after pack A == pack B into a new image", &sig, &case);
+    ctx.out.oracle(un_is_b, "unpack after re-pack returns B", &format!("{}/pack_{}/repack-roundtrip-differs", fs.module(), kind), &case);
+    ctx.out.q(&format!("{} {}", head, tail), &ans);
+    ctx.out.case(case.as_bytes(), true);
+    ctx.out.sample(&case);
+}
+
 fn check_newfimg(ctx: &mut Ctx) {
     for fs in ALL_FS {
         let f = new_fimg(fs, 256);
@@ -889,6 +1046,13 @@ pub fn run(ctx: &mut Ctx) {
     for k in 0..n_esc {
         let mut rng = root.fork(idx as u64);
         if ctx.out.wants(idx) { case_esc(ctx, idx, &mut rng, k); }
+        idx += 1;
+    }
+    // ---- section F: re-use -------------------------------------------------------------------
+    let n_reuse = ctx.n(500, 6000);
+    for k in 0..n_reuse {
+        let mut rng = root.fork(idx as u64);
+        if ctx.out.wants(idx) { case_reuse(ctx, idx, &mut rng, &var, ALL_FS[k % 5], k / 5); }
         idx += 1;
     }
 }
